@@ -1,7 +1,7 @@
 """Intrinsic models: harness API (nondet/assume/assert), library functions (strings, bytes, regexp,
 fmt, strconv, path, bufio, os stubs, zerolog).  Every model is listed in evidence as part of the
 trusted base; string models are differentially tested against the real Go functions (selftest.py)."""
-import z3
+import zz as z3
 from sym import *
 from gobmc import *
 import pike
@@ -69,6 +69,59 @@ def h_nondet_str(ex, st, g, args, pos):
     else:
         s = s_fresh('s_' + tag, mx)
         ctx.assumptions.append(z3.And(s.ln >= 0, s.ln <= mx))
+    ctx.nondets.append((tag, 'str', s))
+    return s
+
+
+@harness('vNondetStrP')
+def h_nondet_strp(ex, st, g, args, pos):
+    """printable ASCII (0x20..0x7e) string; byte ranges are known to the term layer"""
+    s = h_nondet_str(ex, st, g, args, pos)
+    for b in s.b:
+        ex.ctx.assumptions.append(z3.And(z3.UGE(b, 0x20), z3.ULE(b, 0x7e)))
+        set_ub(b, 0x7e, 0x20)
+    return s
+
+
+@harness('vNondetStrA')
+def h_nondet_stra(ex, st, g, args, pos):
+    """ASCII (< 0x80) string without NUL"""
+    s = h_nondet_str(ex, st, g, args, pos)
+    for b in s.b:
+        ex.ctx.assumptions.append(z3.And(z3.UGE(b, 1), z3.ULE(b, 0x7f)))
+        set_ub(b, 0x7f, 1)
+    return s
+
+
+@harness('vNondetStrOf')
+def h_nondet_strof(ex, st, g, args, pos):
+    """string over a small constant alphabet: every byte is an ite-tree over the alphabet's constants,
+    so comparisons with bytes outside the alphabet fold away"""
+    tag = cstr(args[0])
+    mx = args[1]
+    alpha = args[2].conc()
+    ctx = ex.ctx
+    fixed = ctx.hooks.get('fixlen', {}).get(tag)
+    cap = fixed if fixed is not None else mx
+    nb = max(1, (len(alpha) - 1).bit_length())
+    bs = []
+    for i in range(cap):
+        sel = z3.BitVec('s_%s_%d' % (tag, i), 8)
+        ctx.assumptions.append(z3.ULT(sel, len(alpha)))
+        v = alpha[-1]
+        for j in range(len(alpha) - 2, -1, -1):
+            v = z3.If(sel == j, z3.BitVecVal(alpha[j], 8), v if isinstance(v, z3.ExprRef) else z3.BitVecVal(v, 8))
+        if not isinstance(v, z3.ExprRef):
+            v = int(v)
+        else:
+            set_ub(v, max(alpha), min(alpha))
+        bs.append(v)
+    if fixed is not None:
+        s = Str(bs, fixed)
+    else:
+        ln = z3.BitVec('s_%s_len' % tag, W)
+        ctx.assumptions.append(z3.And(ln >= 0, ln <= mx))
+        s = Str(bs, ln)
     ctx.nondets.append((tag, 'str', s))
     return s
 
@@ -308,6 +361,76 @@ def expand_template(tmpl):
     return out
 
 
+def expand_sym(ex, g, t, groups, pos):
+    """Go's Regexp.expand for a symbolic template t (numbered groups only; `${` that is not closed is not modelled)"""
+    def isname(c):
+        return b_or(b_and(i_cmp('>=', c, 48, 8, False), i_cmp('<=', c, 57, 8, False)), b_and(i_cmp('>=', c, 65, 8, False), i_cmp('<=', c, 90, 8, False)),
+                    b_and(i_cmp('>=', c, 97, 8, False), i_cmp('<=', c, 122, 8, False)), i_cmp('==', c, 95, 8, False))
+
+    def isdigit(c):
+        return b_and(i_cmp('>=', c, 48, 8, False), i_cmp('<=', c, 57, 8, False))
+
+    def group(num):
+        r = EMPTY
+        for k in range(len(groups) - 1, -1, -1):
+            r = s_ite(i_cmp('==', num, k, 8, False), groups[k], r)
+        return r
+    out = EMPTY
+    mode = 0      # 0 text, 1 after '$', 2 in $name, 3 in ${name
+    num = 0
+    alld = True
+    nlen = 0
+    DOLLAR = s_const('$')
+
+    def finish(mode, num, alld, nlen):
+        """text to emit when a pending reference ends without consuming the current byte"""
+        ref = s_ite(b_and(alld, i_cmp('<', num, 100, 8, False)), group(num), EMPTY)
+        return s_ite(i_cmp('==', mode, 2, 8, False), ref, s_ite(i_cmp('==', mode, 1, 8, False), DOLLAR, EMPTY))
+    for p in range(t.cap + 1):
+        inr = i_cmp('<', p, t.ln, W, True) if p < t.cap else False
+        c = t.b[p] if p < t.cap else 0
+        if p == t.cap or inr is not True:
+            # end of template may be here
+            atend = i_cmp('==', t.ln, p, W, True)
+            if atend is not False:
+                ex.ctx.oblige('unsupported', 'template ends inside `${`', b_and(g, atend, i_cmp('==', mode, 3, 8, False)), pos)
+                out = s_ite(atend, s_concat(out, finish(mode, num, alld, nlen)), out)
+            if p == t.cap or inr is False:
+                break
+        m0, m1, m2, m3 = (i_cmp('==', mode, k, 8, False) for k in range(4))
+        isd = i_cmp('==', c, 36, 8, False)
+        nm = isname(c)
+        dg = isdigit(c)
+        # pieces emitted at this byte
+        # mode 0: '$' -> pending; else literal byte
+        e0 = s_ite(isd, EMPTY, Str([c], 1))
+        # mode 1 (after '$'): '$' -> "$"; '{' -> brace; name char -> start name; else "$" + byte
+        isbrace = i_cmp('==', c, 123, 8, False)
+        e1 = s_ite(isd, DOLLAR, s_ite(b_or(isbrace, nm), EMPTY, s_concat(DOLLAR, Str([c], 1))))
+        # mode 2: name char continues; else reference ends, then byte handled as in mode 0
+        ref = s_ite(b_and(alld, i_cmp('<', num, 100, 8, False)), group(num), EMPTY)
+        e2 = s_ite(nm, EMPTY, s_concat(ref, e0))
+        # mode 3: name char continues; '}' ends with non-empty name; anything else not modelled
+        isclose = i_cmp('==', c, 125, 8, False)
+        ex.ctx.oblige('unsupported', '`${` reference that is empty or not closed', b_and(g, inr, m3, b_or(b_and(b_not(nm), b_not(isclose)), b_and(isclose, i_cmp('==', nlen, 0, 8, False)))), pos)
+        e3 = s_ite(isclose, ref, EMPTY)
+        piece = s_ite(m0, e0, s_ite(m1, e1, s_ite(m2, e2, e3)))
+        out = s_ite(inr, s_concat(out, piece), out)
+        dval = i_bin('-', c, 48, 8, False)
+        num_next = ite(i_cmp('<', num, 100, 8, False), i_bin('+', i_bin('*', num, 10, 8, False), dval, 8, False), 100, 8)
+        new_mode = ite(m0, ite(isd, 1, 0, 8),
+                       ite(m1, ite(isd, 0, ite(isbrace, 3, ite(nm, 2, 0, 8), 8), 8),
+                           ite(m2, ite(nm, 2, ite(isd, 1, 0, 8), 8),
+                               ite(isclose, 0, 3, 8), 8), 8), 8)
+        cont = b_or(b_and(m2, nm), b_and(m3, nm))
+        start = b_and(m1, nm)
+        num = ite(start, dval, ite(cont, num_next, ite(b_and(m1, isbrace), 0, num, 8), 8), 8)
+        alld = ite(start, dg, ite(cont, b_and(alld, dg), ite(b_and(m1, isbrace), True, alld)))
+        nlen = ite(start, 1, ite(cont, ite(i_cmp('<', nlen, 200, 8, False), i_bin('+', nlen, 1, 8, False), nlen, 8), ite(b_and(m1, isbrace), 0, nlen, 8), 8), 8)
+        mode = ite(inr, new_mode, mode, 8)
+    return out
+
+
 def rx_replace_all(ex, st, g, rxv, s, tmpl_parts, pos, max_matches=None):
     """ReplaceAll with pieces = list of ('lit', Str) | ('grp', n)."""
     ctx = ex.ctx
@@ -342,6 +465,8 @@ def rx_replace_all(ex, st, g, rxv, s, tmpl_parts, pos, max_matches=None):
         for kind, v in tmpl_parts:
             if kind == 'lit':
                 piece = s_concat(piece, v)
+            elif kind == 'sym':
+                piece = s_concat(piece, expand_sym(ex, b_and(g, m), v, groups, pos))
             elif 0 <= v < n:
                 piece = s_concat(piece, groups[v])
         result = s_ite(m, s_concat(result, piece), result)
@@ -351,18 +476,13 @@ def rx_replace_all(ex, st, g, rxv, s, tmpl_parts, pos, max_matches=None):
     return s_concat(result, tail)
 
 
-@intr('(*regexp.Regexp).ReplaceAllString')
+@intr('(*regexp.Regexp).ReplaceAllString', '(*regexp.Regexp).ReplaceAll')
 def rx_replace_all_string(ex, st, g, args, pos):
     tm = args[2]
     if tm.is_conc():
         parts = [(k, s_const(v) if k == 'lit' else v) for k, v in expand_template(tm.conc())]
     else:
-        # symbolic template: supported when the harness declares it free of '$' (checked as obligation)
-        hasdollar = b_or(*[b_and(i_cmp('<', p, tm.ln, W, True), i_cmp('==', tm.b[p], 36, 8, False)) for p in range(tm.cap)])
-        parts = ex.ctx.hooks.get('template_split')
-        if parts is None:
-            raise Unsupported('ReplaceAllString with symbolic template')
-        parts = parts(tm)
+        parts = [('sym', tm)]
     return lift_str(ex, st, [args[1]], lambda sv: rx_replace_all(ex, st, g, args[0], sv, parts, pos))
 
 
@@ -496,47 +616,170 @@ def i_cutsuffix(ex, st, g, args, pos):
     return lift_str(ex, st, args[:2], one)
 
 
-def s_index(s, sub):
-    """first index of sub in s or -1 (sub concrete)"""
-    if not sub.is_conc():
-        raise Unsupported('Index with symbolic needle')
-    n = sub.conc()
-    L = len(n)
+def match_at(s, p, sub):
+    """condition: sub occurs in s at concrete position p (sub may be symbolic); early exit on mismatch"""
+    conds = []
+    if is_c(sub.ln):
+        L = sub.ln
+        c = i_cmp('<=', p + L, s.ln, W, True)
+        if c is False:
+            return False
+        conds.append(c)
+        for k in range(L):
+            c = i_cmp('==', s.at(p + k), sub.b[k], 8, False)
+            if c is False:
+                return False
+            conds.append(c)
+        return b_and(*conds)
+    c = i_cmp('<=', i_bin('+', sub.ln, p, W, True), s.ln, W, True)
+    if c is False:
+        return False
+    conds.append(c)
+    for k in range(sub.cap):
+        c = b_or(i_cmp('<=', sub.ln, k, W, True), i_cmp('==', s.at(p + k), sub.b[k], 8, False) if p + k < s.cap else False)
+        if c is False:
+            return False
+        conds.append(c)
+    return b_and(*conds)
+
+
+def s_index(s, sub, frm=0):
+    """first index >= frm (concrete) of sub in s, or -1; needle may be symbolic"""
+    if is_c(sub.ln) and sub.ln == 0:
+        return frm
     r = -1
-    for p in range(s.cap - L, -1, -1):
-        hit = b_and(i_cmp('<=', p + L, s.ln, W, True), *[i_cmp('==', s.b[p + k], n[k], 8, False) for k in range(L)])
+    for p in range(s.cap, frm - 1, -1):
+        hit = match_at(s, p, sub)
         r = ite(hit, p, r, W)
-    if L == 0:
-        return 0
+    if not is_c(r):
+        pass
     return r
 
 
-@intr('strings.Index')
+def s_last_index(s, sub):
+    r = -1
+    for p in range(0, s.cap + 1):
+        hit = match_at(s, p, sub)
+        r = ite(hit, p, r, W)
+    return r
+
+
+def s_count(s, sub):
+    """non-overlapping occurrences (needle non-empty, concrete length)"""
+    if not is_c(sub.ln) or sub.ln == 0:
+        raise Unsupported('Count with symbolic-length or empty needle')
+    L = sub.ln
+    cnt = 0
+    skip = 0
+    for p in range(s.cap):
+        hit = b_and(i_cmp('==', skip, 0, 8, False), match_at(s, p, sub))
+        cnt = i_bin('+', cnt, ite(hit, 1, 0, W), W, True)
+        skip = ite(hit, L - 1, ite(i_cmp('==', skip, 0, 8, False), 0, i_bin('-', skip, 1, 8, False), 8), 8)
+    if not is_c(cnt):
+        set_ub(cnt, s.cap // L)
+    return cnt
+
+
+@intr('strings.Index', 'bytes.Index', 'internal/bytealg.Index', 'internal/bytealg.IndexString')
 def i_index(ex, st, g, args, pos):
     return lift_str(ex, st, args[:2], s_index)
 
 
-def replace_all(s, old, new):
-    """strings.ReplaceAll for a concrete, non-empty needle; `new` may be symbolic"""
-    if not old.is_conc():
-        raise Unsupported('ReplaceAll with symbolic needle')
-    n = old.conc()
-    L = len(n)
+@intr('strings.LastIndex', 'bytes.LastIndex')
+def i_last_index(ex, st, g, args, pos):
+    return lift_str(ex, st, args[:2], s_last_index)
+
+
+@intr('strings.IndexByte', 'bytes.IndexByte', 'internal/bytealg.IndexByte', 'internal/bytealg.IndexByteString')
+def i_index_byte(ex, st, g, args, pos):
+    return lift_str(ex, st, [args[0]], lambda s: s_index(s, Str([args[1]], 1)))
+
+
+@intr('strings.LastIndexByte', 'bytes.LastIndexByte', 'internal/bytealg.LastIndexByte', 'internal/bytealg.LastIndexByteString')
+def i_last_index_byte(ex, st, g, args, pos):
+    return lift_str(ex, st, [args[0]], lambda s: s_last_index(s, Str([args[1]], 1)))
+
+
+@intr('internal/bytealg.Count', 'internal/bytealg.CountString')
+def i_count_byte(ex, st, g, args, pos):
+    return lift_str(ex, st, [args[0]], lambda s: s_count(s, Str([args[1]], 1)))
+
+
+@intr('strings.Count', 'bytes.Count')
+def i_count(ex, st, g, args, pos):
+    return lift_str(ex, st, args[:2], s_count)
+
+
+@intr('strings.Contains', 'bytes.Contains')
+def i_contains(ex, st, g, args, pos):
+    return lift_str(ex, st, args[:2], lambda s, sub: i_cmp('>=', s_index(s, sub), 0, W, True))
+
+
+@intr('internal/bytealg.Equal', 'internal/bytealg.Compare$eq')
+def i_bytealg_equal(ex, st, g, args, pos):
+    return lift_str(ex, st, args[:2], s_eq)
+
+
+@intr('internal/bytealg.MakeNoZero')
+def i_makenozero(ex, st, g, args, pos):
+    n = args[0]
+    if not is_c(n):
+        raise Unsupported('MakeNoZero with symbolic length')
+    return Str([0] * n, n)
+
+
+@intr('strings.Replace', 'bytes.Replace')
+def i_replace_n(ex, st, g, args, pos):
+    n = args[3]
+    if not is_c(n):
+        raise Unsupported('Replace with symbolic count')
+    return lift_str(ex, st, args[:3], lambda s, o, nw: replace_all(s, o, nw, n))
+
+
+@intr('unicode/utf8.DecodeRuneInString', 'unicode/utf8.DecodeRune')
+def i_decoderune(ex, st, g, args, pos):
+    def one(s):
+        (ok, _, r), it = str_next(ex, st, g, IterV('str', s=s, pos=0), pos)
+        size = it.d['pos']
+        r = ite(ok, r, 0xFFFD, 32)
+        size = ite(ok, size, 0, W)
+        return (r, size)
+    return lift_str(ex, st, [args[0]], one)
+
+
+@intr('unicode/utf8.RuneLen')
+def i_runelen(ex, st, g, args, pos):
+    r = args[0]
+    if is_c(r):
+        return 1 if 0 <= r < 0x80 else 2 if r < 0x800 else 3 if r < 0x10000 else 4
+    return ite(i_cmp('<', r, 0x80, 32, True), 1, ite(i_cmp('<', r, 0x800, 32, True), 2, ite(i_cmp('<', r, 0x10000, 32, True), 3, 4, W), W), W)
+
+
+def replace_all(s, old, new, n=-1):
+    """strings.Replace(s, old, new, n) for a non-empty needle of concrete length (bytes may be symbolic)"""
+    if n == 0:
+        return s
+    if not is_c(old.ln):
+        raise Unsupported('Replace with symbolic-length needle')
+    L = old.ln
     if L == 0:
-        raise Unsupported('ReplaceAll with empty needle')
-    if s.is_conc() and new.is_conc():
-        return s_const(s.conc().replace(n, new.conc()))
-    # scan left to right: skip = remaining bytes of a match being consumed
+        raise Unsupported('Replace with empty needle')
+    if s.is_conc() and new.is_conc() and old.is_conc():
+        return s_const(s.conc().replace(old.conc(), new.conc(), n if n >= 0 else -1))
     out = EMPTY
-    skip = 0   # int term in 0..L-1
+    skip = 0   # remaining bytes of a match being consumed
+    done = 0   # replacements made (only tracked when n >= 0)
     for p in range(s.cap):
         inr = i_cmp('<', p, s.ln, W, True)
         if inr is False:
             break
-        hit = b_and(i_cmp('<=', p + L, s.ln, W, True), *[i_cmp('==', s.at(p + k), n[k], 8, False) for k in range(L)]) if p + L <= s.cap else False
+        hit = match_at(s, p, old)
         free = i_cmp('==', skip, 0, 8, False)
         start = b_and(inr, free, hit)
-        emit = b_and(inr, free, b_not(hit))
+        if n >= 0:
+            start = b_and(start, i_cmp('<', done, n, 8, False))
+            done = ite(start, i_bin('+', done, 1, 8, False), done, 8)
+        emit = b_and(inr, free, b_not(start))
         piece = s_ite(start, new, s_ite(emit, Str([s.b[p]], 1), EMPTY))
         out = s_concat(out, piece)
         skip = ite(start, L - 1, ite(free, 0, i_bin('-', skip, 1, 8, False), 8), 8)
@@ -583,7 +826,7 @@ def split(ex, st, s, sep, maxparts=None):
     if s.is_conc():
         return mk_slice(ex, st, [s_const(x) for x in s.conc().split(bytes([c]))])
     # positions of separators
-    maxparts = maxparts or ex.ctx.hooks.get('max_split', 6)
+    maxparts = maxparts or ex.ctx.hooks.get('max_split', 24)
     parts = []
     start = 0
     cnt = 1
@@ -1195,6 +1438,73 @@ for m in ('Msg', 'Msgf', 'Send'):
 def i_os_exit(ex, st, g, args, pos):
     ex.ctx.terminals.append(('exit', g, {'pos': pos, 'code': args[0]}))
     return ret(None, False)
+
+
+# ------------------------------------------------------------------ file system model
+def fs_get(st):
+    fs = st.heap.get('FS')
+    if fs is None:
+        fs = st.heap['FS'] = LibV('FS', files={}, n=0)
+    return fs
+
+
+def cpath(v):
+    if not (isinstance(v, Str) and v.is_conc()):
+        raise Unsupported('file path must be concrete in the file-system model')
+    return posixpath.normpath(v.conc().decode('latin1'))
+
+
+@harness('vTempDir')
+def h_tempdir(ex, st, g, args, pos):
+    fs = fs_get(st)
+    st.heap['FS'] = fs.with_(n=fs.d['n'] + 1)
+    return s_const('/vtmp/%d' % fs.d['n'])
+
+
+@harness('vWriteFile')
+def h_writefile(ex, st, g, args, pos):
+    fs = fs_get(st)
+    files = dict(fs.d['files'])
+    files[cpath(args[0])] = (True, args[1])
+    st.heap['FS'] = fs.with_(files=files)
+    return None
+
+
+@harness('vReadFile')
+def h_readfile(ex, st, g, args, pos):
+    fs = fs_get(st)
+    e = fs.d['files'].get(cpath(args[0]))
+    if e is None:
+        return s_const('<missing file>')
+    return e[1]
+
+
+@intr('os.ReadFile')
+def i_os_readfile(ex, st, g, args, pos):
+    fs = fs_get(st)
+    e = fs.d['files'].get(cpath(args[0]))
+    if e is None:
+        return (EMPTY, IfaceV('error:opaque', s_const('open: no such file or directory')))
+    present, content = e
+    if present is True:
+        return (content, NILIFACE)
+    err = merge_vals(ex.ctx, st.heap, [(present, NILIFACE), (True, IfaceV('error:opaque', s_const('open: no such file')))])
+    return (content, err)
+
+
+@intr('os.WriteFile')
+def i_os_writefile(ex, st, g, args, pos):
+    fs = fs_get(st)
+    path = cpath(args[0])
+    files = dict(fs.d['files'])
+    old = files.get(path)
+    if old is None or g is True:
+        files[path] = (g if old is None else True, args[1])
+    else:
+        files[path] = (b_or(old[0], g), s_ite(g, args[1], old[1]))
+    st.heap['FS'] = fs.with_(files=files)
+    ex.ctx.effects.append((g, 'write', (path, args[1])))
+    return NILIFACE
 
 
 def install(ctx):
